@@ -32,6 +32,8 @@ rdsparser_ct_init(rdsparser_ct_t *ct,
         return false;
     }
 
+    int32_t days = (int32_t)mjd;
+
     minute += (offset % 2) * 30;
     if (minute >= 60)
     {
@@ -47,25 +49,29 @@ rdsparser_ct_init(rdsparser_ct_t *ct,
     hour += (offset / 2);
     if (hour >= 24)
     {
-        mjd++;
+        days++;
         hour %= 24;
     }
     else if (hour < 0)
     {
-        mjd--;
+        days--;
         hour = 24 + hour;
     }
 
-    ct->year = ((mjd * 100 - 1507820) / 36525);
-    uint32_t year_tmp = (ct->year * 36525) / 100;
-    ct->month = ((mjd * 100 - 1495610) - year_tmp * 100) * 100 / 306001;
-    uint32_t month_tmp = (ct->month * 306001) / 10000;
-    ct->day = mjd - 14956 - year_tmp - month_tmp;
+    /* Modified Julian Day to proleptic Gregorian date:
+       count the days from 0000-03-01 (MJD 0 is 1858-11-17),
+       split into 400-year eras, year of era and day of year */
+    days += 678881;
+    const int32_t era = days / 146097;
+    const int32_t doe = days % 146097;
+    const int32_t yoe = (doe - doe / 1460 + doe / 36524 - doe / 146096) / 365;
+    const int32_t doy = doe - (365 * yoe + yoe / 4 - yoe / 100);
+    const int32_t mp = (5 * doy + 2) / 153;
 
-    uint8_t k = (ct->month == 14 || ct->month == 15) ? 1 : 0;
-    ct->year = 1900 + ct->year + k;
-    ct->month = ct->month - 1 - k * 12;
-    
+    ct->day = doy - (153 * mp + 2) / 5 + 1;
+    ct->month = (mp < 10) ? mp + 3 : mp - 9;
+    ct->year = yoe + era * 400 + (ct->month <= 2 ? 1 : 0);
+
     ct->hour = hour;
     ct->minute = minute;
     ct->offset = offset;
